@@ -68,9 +68,17 @@ func (c *DNSCache) lookup(ctx context.Context, name string) (*dnsCacheEntry, boo
 	c.mutex.Lock()
 	defer c.mutex.Unlock()
 
+	// A cache without room holds nothing: hand back what we resolved.
+	if c.size <= 0 {
+		return &dnsCacheEntry{
+			addrs:   addrs,
+			expires: time.Now().Add(c.duration),
+		}, false
+	}
+
 	// If we've hit, or exceed somehow, the maximum size of the cache
 	// then we will need to evict the oldest entries to make room.
-	for len(c.entries) >= c.size {
+	for len(c.entries) > 0 && len(c.entries) >= c.size {
 		name, ts := "", time.Now().Add(c.duration)
 		for n, e := range c.entries {
 			if e.expires.Before(ts) {
